@@ -546,16 +546,18 @@ def ev_ctor(c, desc, seed):
                                                          matrix(J[::-1], (len(J), 1), 'i'), (m, n), tc), Am, ps)
     # 3 rotated order with duplicates: nonzero v = (v+2) + (-2) ; explicit zero = 1.5 + (-1.5) ; tuple arguments
     I3, J3, V3 = [], [], []
+    # (for 'z' the parts that cancel have imaginary components, in the first and in the later occurrence)
+    d2, d15 = (complex(2, -3), complex(1.5, 0.5)) if tc == 'z' else (2, 1.5)
     for k in range(len(cells)):
         q = (k + 2) % len(cells)
-        I3.append(I[q]); J3.append(J[q]); V3.append(V[q] + 2 if V[q] != 0 else 1.5)
+        I3.append(I[q]); J3.append(J[q]); V3.append(V[q] + d2 if V[q] != 0 else d15)
     for k in range(len(cells)):
-        I3.append(I[k]); J3.append(J[k]); V3.append(-2.0 if V[k] != 0 else -1.5)
+        I3.append(I[k]); J3.append(J[k]); V3.append(-d2 if V[k] != 0 else -d15)
     if cells:
         attempt('duplicates-unsorted', lambda: spmatrix(tuple(V3), tuple(I3), tuple(J3), (m, n), tc), Am, ps)
         # duplicates three times in the same cell, adjacent
-        attempt('duplicates-triple', lambda: spmatrix([V[0] - 1, 0.25, 0.75] + V[1:], [I[0]] * 3 + I[1:], [J[0]] * 3 + J[1:],
-                                                      (m, n), tc), Am, ps)
+        t3 = [V[0] - 1, 0.25, 0.75] if tc != 'z' else [V[0] - 1 - 2j, complex(0.25, 0.5), complex(0.75, 1.5)]
+        attempt('duplicates-triple', lambda: spmatrix(t3 + V[1:], [I[0]] * 3 + I[1:], [J[0]] * 3 + J[1:], (m, n), tc), Am, ps)
     # 4 default size and typecode
     if cells:
         dm, dnn = max(I) + 1, max(J) + 1
